@@ -57,8 +57,8 @@ type cv struct {
 	bad    string
 }
 
-func cvInt(coq string) cv   { return cv{k: ckInt, coq: coq} }
-func cvBool(coq string) cv  { return cv{k: ckBool, coq: coq} }
+func cvInt(coq string) cv      { return cv{k: ckInt, coq: coq} }
+func cvBool(coq string) cv     { return cv{k: ckBool, coq: coq} }
 func cvConstInt(i *big.Int) cv { return cv{k: ckInt, coq: coqZ(i), ci: i} }
 func cvConstBool(b bool) cv {
 	if b {
@@ -247,10 +247,10 @@ var ctlFields = map[string]fieldEntry{
 	"CtlOpts.DryMode":          {ckBool, "", "(e_dry e)", "bool"},
 	"CtlOpts.NodeGroups":       {ckList, "CfgOpts", "groups", "[]NodeGroupOptions"},
 
-	"State.Opts":           {ckRec, "StateOpts", "o", "NodeGroupOptions"},
-	"State.NodeInfoMap":    {ckRec, "InfoMap", "pods", "map[string]*k8s.NodeInfo"},
-	"State.scaleUpLock":    {ckRec, "Lock", "%s", "scaleLock"},
-	"CfgState.Opts":        {ckRec, "CfgOpts", "o", "NodeGroupOptions"},
+	"State.Opts":        {ckRec, "StateOpts", "o", "NodeGroupOptions"},
+	"State.NodeInfoMap": {ckRec, "InfoMap", "pods", "map[string]*k8s.NodeInfo"},
+	"State.scaleUpLock": {ckRec, "Lock", "%s", "scaleLock"},
+	"CfgState.Opts":     {ckRec, "CfgOpts", "o", "NodeGroupOptions"},
 
 	"StateOpts.MinNodes": {ckInt, "", "mn", "int"},
 	"StateOpts.MaxNodes": {ckInt, "", "maxn", "int"},
